@@ -53,6 +53,10 @@ func (m *Mutex) Unlock() {
 	raceRelease(unsafe.Pointer(m))
 	m.owner = 0
 	rr.touch(t, &m.hb, 13)
+	if rr.cfg.YieldOnRelease {
+		t.op = opYield
+		t.point()
+	}
 }
 
 // RWMutex replaces sync.RWMutex (no writer preference: a superset of the
@@ -89,6 +93,10 @@ func (m *RWMutex) Unlock() {
 	raceRelease(unsafe.Pointer(&m.rsem))
 	m.owner = 0
 	rr.touch(t, &m.hb, 13)
+	if rr.cfg.YieldOnRelease {
+		t.op = opYield
+		t.point()
+	}
 }
 
 //go:norace
